@@ -307,7 +307,7 @@ Print Assumptions ts_reader_order.
 
 (* ------------------------------------------------------------------ the C01 oracle on the snapshot of a run *)
 Theorem timestamps_reader c crit t0 off ops :
-  tscfg c crit -> tag_free c -> not_gz c -> Forall basic_op ops -> Forall tick_ok ops ->
+  tscfg c crit -> tag_ok c -> not_gz c -> Forall basic_op ops -> Forall tick_ok ops ->
   (0 <= t0 + ts_e c off)%Z -> (t0 + elapsed ops + ts_e c off < sec_max)%Z -> (N.of_nat (length ops) <= usize_max)%N ->
   let x := fst (run (sys0 t0 off) (OStart c :: ops ++ [OStop])) in
   concat (family_in_order c (snap_of x)) = written ops
@@ -329,7 +329,7 @@ Qed.
 Print Assumptions timestamps_reader.
 
 Corollary timestamps_oracle_C01 c crit t0 off ops :
-  tscfg c crit -> tag_free c -> not_gz c -> Forall basic_op ops -> Forall tick_ok ops ->
+  tscfg c crit -> tag_ok c -> not_gz c -> Forall basic_op ops -> Forall tick_ok ops ->
   (0 <= t0 + ts_e c off)%Z -> (t0 + elapsed ops + ts_e c off < sec_max)%Z -> (N.of_nat (length ops) <= usize_max)%N ->
   oracle_C01 None (items false ops) (family_in_order c (snap_of (fst (run (sys0 t0 off) (OStart c :: ops ++ [OStop]))))) = true.
 Proof.
@@ -355,7 +355,7 @@ Proof. vm_compute. reflexivity. Qed.
 Example ts_oracle_instance :
   oracle_C01 None (items false ext_ops) (family_in_order ext_c (snap_of (fst (run (sys0 0 0) (OStart ext_c :: ext_ops ++ [OStop]))))) = true.
 Proof.
-  apply (timestamps_oracle_C01 ext_c (CSize 100) 0 0 ext_ops ext_c_ok ext_c_tag_free ext_c_not_gz ext_ops_basic ext_ops_ticks).
+  apply (timestamps_oracle_C01 ext_c (CSize 100) 0 0 ext_ops ext_c_ok ext_c_tag_ok ext_c_not_gz ext_ops_basic ext_ops_ticks).
   - change (0 <= 0)%Z. lia.
   - change (1 < sec_max)%Z. unfold sec_max. lia.
   - vm_compute. discriminate.
